@@ -61,6 +61,8 @@ type kCase struct {
 	// Deep selects the reduced alphabet {Set, Tombstone(h1), Commit, re-Open} on 2 handles with times in
 	// execution order, which reaches long version chains (TraceHistory, Diff over merges).
 	Deep bool `json:"deep,omitempty"`
+	// Min, when set, restricts the case to sequences of at least this length (shorter ones belong to another case).
+	Min int `json:"min,omitempty"`
 }
 
 func init() {
@@ -150,13 +152,35 @@ func c17Run(r *engine.Run) int {
 	}
 	r.Bounds["deep_chain_depth"] = deepDepth
 	da := c17DeepAlphabet()
+	// thorough: every chain of up to deepDepth-1 events first (completes), then the chains of exactly deepDepth
+	// events in finer shards, as far as the budget allows
+	first := deepDepth
+	if r.Thorough() {
+		first = deepDepth - 1
+	}
 	for _, a := range da {
 		if a.H != 0 {
 			continue
 		}
 		for _, b := range da {
 			for _, c3 := range da {
-				cases = append(cases, engine.J(kCase{Mode: "lww", Keys: 1, First: []kEvent{a, b, c3}, Depth: deepDepth, Deep: true}))
+				cases = append(cases, engine.J(kCase{Mode: "lww", Keys: 1, First: []kEvent{a, b, c3}, Depth: first, Deep: true}))
+			}
+		}
+	}
+	if r.Thorough() {
+		for _, a := range da {
+			if a.H != 0 {
+				continue
+			}
+			for _, b := range da {
+				for _, c3 := range da {
+					for _, c4 := range da {
+						for _, c5 := range da {
+							cases = append(cases, engine.J(kCase{Mode: "lww", Keys: 1, First: []kEvent{a, b, c3, c4, c5}, Depth: deepDepth, Min: deepDepth, Deep: true}))
+						}
+					}
+				}
 			}
 		}
 	}
@@ -269,6 +293,9 @@ func c17Worker(raw json.RawMessage) *engine.Result {
 	}
 	var sample interface{}
 	for total := len(c.First); total <= c.Depth; total++ {
+		if total < c.Min {
+			continue
+		}
 		rest := total - len(c.First)
 		seqs(len(alpha), rest, func(tailIdx []int) {
 			evs := append([]kEvent{}, c.First...)
